@@ -50,6 +50,13 @@ def run(tier, work):
         dl, _ = K.render(gr, K.PLAIN)
         ql, _ = K.query_lines(gr, K.PLAIN)
         progs.append(("classes", "\n".join(dl + ql) + "\n"))
+    # the same graphs with every class / module placed in its own namespace (TLC: MCPlacements), edges crossing namespaces
+    from . import c16
+    sub = graphs[:len(graphs) // 2]
+    for gr, pl in zip(sub, c16.choose_places(work, stats, sub, rng)):
+        dl, _ = K.render(gr, K.PLAIN, place=pl)
+        ql, _ = K.query_lines(gr, K.PLAIN, place=pl)
+        progs.append(("classes-placed", "\n".join(dl + ql) + "\n"))
     cfgs = extra_configs(work)
     jobs, meta = [], []
     for tag, text in progs:
@@ -78,7 +85,7 @@ def run(tier, work):
         compared += 1
         if (res.get("out") or "") == b.get("out") and not (res.hung or res.crashed):
             continue
-        mentions = cname == "same-short-name-other-frame" and tag == "classes"
+        mentions = cname == "same-short-name-other-frame" and tag.startswith("classes")
         key = ("Dev_FlatBuiltinClassList" if mentions else "%s:%s" % (cname, tag))
         if v.seen(key):
             v.again(key)
@@ -95,7 +102,8 @@ def run(tier, work):
     cov = {"states": stats["states"], "transitions": stats["transitions"], "traces_validated_against_impl": compared,
            "programs": len(progs), "extra_configurations": len(cfgs),
            "rule": "corpus + TLC-generated class programs x {no extra files, unmentioned classes in Builtin, unmentioned classes in "
-                   "another frame, same short names as the program's classes in another frame}; diagnostics and -i output compared"}
+                   "another frame, same short names as the program's classes in another frame}; class programs also with every class / "
+                   "module placed in a namespace of its own (edges crossing namespaces); diagnostics and -i output compared"}
     return v.finish("model_checking", cov, assumptions=["a program mentions a class when the class's name occurs in its text"])
 
 
